@@ -250,8 +250,9 @@ class World:
     def touch(self, folder: str):
         self.syn_mtime[self.folder_path(folder).rstrip("/")] = self.next_tick()
 
-    def deliver(self, folder: str, msg: bytes, unseen: bool = True, mtime: int | None = None, tick: bool = True) -> int:
-        """What `rcvstore`/`inc` do, written with plain os calls (no asimap, no mailbox.MH)."""
+    def deliver(self, folder: str, msg: bytes, unseen: bool = True, mtime: int | None = None, tick: bool = True, seqs=()) -> int:
+        """What `rcvstore`/`inc` do, written with plain os calls (no asimap, no mailbox.MH).
+        seqs: further MH sequences the agent puts the message into (`rcvstore -sequence flagged`)."""
         d = self.folder_path(folder)
         keys = [int(n) for n in os.listdir(d) if n.isdigit()]
         key = max(keys, default=0) + 1
@@ -260,23 +261,26 @@ class World:
             f.write(msg)
         if mtime is not None:
             os.utime(p, (mtime, mtime))
-        if unseen:
+        names = (["unseen"] if unseen else []) + list(seqs)
+        if names:
             sp = os.path.join(d, ".mh_sequences")
             lines = []
             if os.path.exists(sp):
                 with open(sp) as f:
                     lines = f.read().splitlines()
-            out, found = [], False
-            for ln in lines:
-                if ln.startswith("unseen:"):
-                    out.append(ln.rstrip() + f" {key}")
-                    found = True
-                else:
-                    out.append(ln)
-            if not found:
-                out.append(f"unseen: {key}")
+            for name in names:
+                out, found = [], False
+                for ln in lines:
+                    if ln.startswith(name + ":"):
+                        out.append(ln.rstrip() + f" {key}")
+                        found = True
+                    else:
+                        out.append(ln)
+                if not found:
+                    out.append(f"{name}: {key}")
+                lines = out
             with open(sp, "w") as f:
-                f.write("\n".join(out) + "\n")
+                f.write("\n".join(lines) + "\n")
         if tick:
             self.touch(folder)  # tick=False: a delivery within the second of the folder's current mtime
         return key
